@@ -1510,7 +1510,7 @@ func coqZList(v []int64) string {
 func runC09(a runArgs) error {
 	e := NewEmitter("C09", "Liveness.Run")
 	e.ShardSize = 400
-	e.Rule = "watchdog runs of the real client/server code: (transport: in-memory udp, tcp + real tcp/client.Session over a scripted net.Conn, udp + real dtls/server.Session over a scripted net.Conn, udp.Dial over loopback) x operation (request, observe, observation cancel, ping, confirmable / non-confirmable one-way write) x interruption point (before the call, on the wire, after an empty ACK, mid block-wise, queued behind the endpoint limit / total limit / NSTART) x peer behaviour (silence, garbage, unrelated well-formed messages) x trigger (cancel, deadline, local Close, peer close, none = proper answer as control); discovery on a started / not yet started server; 2-8 concurrent Close calls with 0-3 operations in flight and 1-4 on-close callbacks on the three real session types; 2-8 concurrent Server.Stop calls with server-initiated operations in flight (udp and tcp server); an operation whose write is stalled in the socket because the peer stopped reading (tcp and dtls session over a scripted conn whose Write blocks until it is closed; real loopback tcp with a body beyond the socket buffers) x (1-8 concurrent Close, peer closes, context cancelled / expired); the reader loop ended by the peer (input that does not decode, oversized message, peer closes) with 0-3 operations in flight and nobody calling Close, socket owned by the session or by the caller (tcp, dtls, udp.Dial / udp.Client over an own socket); 1-3 concurrent Server.Stop calls of a datagram server with 1-8 peers racing with the exit path of Serve for the peer table (a Stop call takes the table while the Serve goroutine is kept inside OnNewConn of a late peer and Serve returns while that call still works through the table; or Stop while Serve reads); the housekeeping (Conn.CheckExpirations driven with a virtual time, directly or through the function registered with the periodic runner) retransmitting / giving up the pending confirmable request, observe, observation cancel, ping or one-way write (retransmissions used up, deadline of the request's context passed, two housekeeping goroutines at once) before the call's context is cancelled / expires / the connection is closed, plus a call made afterwards. Distinct = distinct scenario; non-trivial = the operation is blocked in a wait when the trigger fires (every scenario except the non-confirmable write), or a close/stop run with at least one callback."
+	e.Rule = "watchdog runs of the real client/server code: (transport: in-memory udp, tcp + real tcp/client.Session over a scripted net.Conn, udp + real dtls/server.Session over a scripted net.Conn, udp.Dial over loopback) x operation (request, observe, observation cancel, ping, confirmable / non-confirmable one-way write) x interruption point (before the call, on the wire, after an empty ACK, mid block-wise, queued behind the endpoint limit / total limit / NSTART) x peer behaviour (silence, garbage, unrelated well-formed messages) x trigger (cancel, deadline, local Close, peer close, none = proper answer as control); discovery on a started / not yet started server; 2-8 concurrent Close calls with 0-3 operations in flight and 1-4 on-close callbacks on the three real session types; 2-8 concurrent Server.Stop calls with server-initiated operations in flight (udp and tcp server); an operation whose write is stalled in the socket because the peer stopped reading (tcp and dtls session over a scripted conn whose Write blocks until it is closed; real loopback tcp with a body beyond the socket buffers) x (1-8 concurrent Close, peer closes, context cancelled / expired); the reader loop ended by the peer (input that does not decode, oversized message, peer closes) with 0-3 operations in flight and nobody calling Close, socket owned by the session or by the caller (tcp, dtls, udp.Dial / udp.Client over an own socket); 1-3 concurrent Server.Stop calls of a datagram server with 1-8 peers racing with the exit path of Serve for the peer table (a Stop call takes the table while the Serve goroutine is kept inside OnNewConn of a late peer and Serve returns while that call still works through the table; or Stop while Serve reads); the housekeeping (Conn.CheckExpirations driven with a virtual time, directly or through the function registered with the periodic runner) retransmitting / giving up the pending confirmable request, observe, observation cancel, ping or one-way write (retransmissions used up, deadline of the request's context passed, two housekeeping goroutines at once) before the call's context is cancelled / expires / the connection is closed, plus a call made afterwards; on-close callbacks registered while the connection shuts down (by an on-close callback itself, or by another goroutine while an on-close callback runs) on the three real session types; 1-3 concurrent Server.Stop calls of a stream server (tcp, tls) while an accepted connection with a silent peer is still being set up (inside its OnNewConn hook while Serve closes its table; inside the TLS handshake) next to 0-3 fully registered connections. Distinct = distinct scenario; non-trivial = the operation is blocked in a wait when the trigger fires (every scenario except the non-confirmable write), or a close/stop run with at least one callback."
 	if os.Getenv("HX_CONFIRM") != "" {
 		c09Watchdog = 10 * time.Second
 	}
@@ -1601,6 +1601,32 @@ func runC09(a runArgs) error {
 			k.desc(), true,
 			"tick", fmt.Sprintf("tick-tr%d", k.tr), fmt.Sprintf("tick-op%d", k.op), fmt.Sprintf("tick-mode%d", k.mode), fmt.Sprintf("tick-trig%d", k.trig))
 	}
+	doReg := func(k c09RegCase, o c09RegObs) {
+		e.Add(fmt.Sprintf("RegRun %d %d %d %d %d %s %s %s %s", k.tr, k.mode, k.ncb, k.nlate, k.who, coqZList(o.cb), coqZList(o.late),
+			coqBool(o.done), coqBool(o.closers)), k.desc(), true,
+			"reg", fmt.Sprintf("reg-tr%d", k.tr), fmt.Sprintf("reg-mode%d", k.mode), fmt.Sprintf("reg-nlate%d", k.nlate))
+	}
+	doSetup := func(k c09SetupCase, o c09SetupObs) {
+		e.Add(fmt.Sprintf("SetupStop %d %d %d %d %d %s %s %s %s %s %s", k.mode, k.nstop, k.nreg, k.ncb, o.nconn, coqZList(o.cb),
+			coqBool(o.done), coqBool(o.ctx), coqBool(o.closers), coqBool(o.panic_), coqBool(o.serve)), k.desc(), true,
+			"setup", fmt.Sprintf("setup-mode%d", k.mode), fmt.Sprintf("setup-nstop%d", k.nstop), fmt.Sprintf("setup-nreg%d", k.nreg))
+	}
+	runReg := func(k c09RegCase) (o c09RegObs, err error) {
+		for attempt := 0; attempt < 3; attempt++ { // a failed SETUP (not an observation) is retried
+			if o, err = runC09Reg(k); err == nil {
+				break
+			}
+		}
+		return o, err
+	}
+	runSetup := func(k c09SetupCase) (o c09SetupObs, err error) {
+		for attempt := 0; attempt < 3; attempt++ {
+			if o, err = runC09Setup(k); err == nil {
+				break
+			}
+		}
+		return o, err
+	}
 	runSrace := func(k c09SraceCase) (o c09SraceObs, err error) {
 		for attempt := 0; attempt < 3; attempt++ { // a failed SETUP (not an observation) is retried
 			if o, err = runC09Srace(k); err == nil {
@@ -1673,6 +1699,20 @@ func runC09(a runArgs) error {
 				setupErrs = append(setupErrs, k.desc()+": "+err.Error())
 			} else {
 				doTick(k, o)
+			}
+		case f[0] == "reg" && len(f) == 6:
+			k := c09RegCase{atoi(f[1]), atoi(f[2]), atoi(f[3]), atoi(f[4]), atoi(f[5])}
+			if o, err := runReg(k); err != nil {
+				setupErrs = append(setupErrs, k.desc()+": "+err.Error())
+			} else {
+				doReg(k, o)
+			}
+		case f[0] == "setup" && len(f) == 5:
+			k := c09SetupCase{atoi(f[1]), atoi(f[2]), atoi(f[3]), atoi(f[4])}
+			if o, err := runSetup(k); err != nil {
+				setupErrs = append(setupErrs, k.desc()+": "+err.Error())
+			} else {
+				doSetup(k, o)
 			}
 		default:
 			return fmt.Errorf("bad descriptor %q", a.only)
@@ -1959,6 +1999,72 @@ func runC09(a runArgs) error {
 				continue
 			}
 			doTick(k, tickOut[i])
+		}
+	}
+	// ---------- registration during shutdown (parallel); Stop while a connection is set up (sequential) ----------
+	{
+		var regs []c09RegCase
+		rreps := 1
+		if thorough {
+			rreps = 4
+		}
+		for rep := 0; rep < rreps; rep++ {
+			for _, tr := range []int{1, 2, 3} {
+				for _, mode := range []int{0, 1} {
+					// the callback that registers / is slow is the first one: everything behind it is still to run
+					regs = append(regs, c09RegCase{tr, mode, 2, 2, 0}, c09RegCase{tr, mode, 3 + rng.Intn(2), 2 + rng.Intn(3), 0})
+					ncb := 3 + rng.Intn(2)
+					regs = append(regs, c09RegCase{tr, mode, ncb, 1 + rng.Intn(4), rng.Intn(ncb)})
+					if thorough {
+						regs = append(regs, c09RegCase{tr, mode, 1 + rng.Intn(4), 5 + rng.Intn(4), 0})
+					}
+				}
+			}
+		}
+		regOut := make([]c09RegObs, len(regs))
+		regErr := make([]error, len(regs))
+		var wg sync.WaitGroup
+		sem4 := make(chan struct{}, 8)
+		for i := range regs {
+			wg.Add(1)
+			sem4 <- struct{}{}
+			go func(i int) {
+				defer wg.Done()
+				defer func() { <-sem4 }()
+				regOut[i], regErr[i] = runReg(regs[i])
+			}(i)
+		}
+		wg.Wait()
+		for i, k := range regs {
+			if regErr[i] != nil {
+				setupErrs = append(setupErrs, k.desc()+": "+regErr[i].Error())
+				continue
+			}
+			doReg(k, regOut[i])
+		}
+		var setups []c09SetupCase
+		sreps := 1
+		if thorough {
+			sreps = 5
+		}
+		for rep := 0; rep < sreps; rep++ {
+			for _, mode := range []int{0, 1} {
+				for _, nstop := range []int{1, 2, 3} {
+					nreg := 1 + rng.Intn(3)
+					if mode == 1 && nstop == 1 {
+						nreg = 0 // nobody but the silent peer
+					}
+					setups = append(setups, c09SetupCase{mode, nstop, nreg, 1 + rng.Intn(3)})
+				}
+			}
+		}
+		for _, k := range setups {
+			o, err := runSetup(k)
+			if err != nil {
+				setupErrs = append(setupErrs, k.desc()+": "+err.Error())
+				continue
+			}
+			doSetup(k, o)
 		}
 	}
 	// real loopback tcp, peer never reads: sequential (the witness is a stack snapshot of the whole process)
